@@ -167,6 +167,58 @@ fn gen_case(bytes: &[u8]) -> Case {
     }
 }
 
+/// Large shared rulesets: (A) a few deeply nested rules evaluated by hundreds of tasks that are all in flight at once;
+/// (B) a hundred rules with five call sites each over four functions, hammered by 8-16 threads.
+fn heavy_cases(seed: u64) -> Vec<Case> {
+    let call = |f: &str, k: i128| Expr::func(f, Expr::Vec(vec![Expr::reff("id"), Expr::value(k)]));
+    let mut fns = BTreeMap::new();
+    for (i, name) in ["fa", "fb", "fc", "fd"].iter().enumerate() {
+        fns.insert(name.to_string(), me::FnSpec { cacheable: i % 2 == 0 || *name == "fd", fail_on: vec![], fail_first: 0 });
+    }
+    let nest = |mut e: Expr, depth: usize| {
+        for i in 0..depth {
+            e = match i % 4 {
+                0 => Expr::Vec(vec![e]),
+                1 => Expr::iif(Expr::value(true), e, Expr::value(0)),
+                2 => Expr::index(Expr::Vec(vec![Expr::value(0), e]), Ix::Vec(1)),
+                _ => Expr::Map([("k".to_string(), e)].into_iter().collect()),
+            };
+        }
+        e
+    };
+    let mut out = vec![];
+    // (A)
+    let rules_a: Vec<(String, Expr)> = vec![
+        ("deep0".into(), nest(call("fa", 1), 12)),
+        ("deep1".into(), nest(call("fb", 2), 10)),
+        ("deep2".into(), nest(Expr::Vec(vec![call("fc", 3), call("fd", 4)]), 9)),
+    ];
+    for (n, raw) in [(400usize, false), (96, true)] {
+        out.push(Case {
+            spec: SetSpec { rules: rules_a.clone(), fns: fns.clone(), symbols: BTreeMap::new(), suspend: 2 },
+            n,
+            raw_threads: raw,
+            repeat: 1,
+            input_seed: seed,
+        });
+    }
+    // (B)
+    let names = ["fa", "fb", "fc", "fd"];
+    let rules_b: Vec<(String, Expr)> = (0..100usize)
+        .map(|i| (format!("m{i}"), Expr::Vec((0..5usize).map(|j| call(names[(i * 7 + j * 3 + i / 4) % 4], (i * 5 + j) as i128)).collect())))
+        .collect();
+    for (n, raw) in [(8usize, true), (16, false), (16, true)] {
+        out.push(Case {
+            spec: SetSpec { rules: rules_b.clone(), fns: fns.clone(), symbols: BTreeMap::new(), suspend: 0 },
+            n,
+            raw_threads: raw,
+            repeat: 25,
+            input_seed: seed ^ 0x55,
+        });
+    }
+    out
+}
+
 fn case_json(c: &Case) -> serde_json::Value {
     json!({"spec": spec_to_json(&c.spec), "n": c.n, "raw_threads": c.raw_threads, "repeat": c.repeat, "input_seed": c.input_seed.to_string()})
 }
@@ -326,7 +378,7 @@ fn main() {
         "Static half (precondition, decided by the compiler): Send + Sync instantiations for RuleSet, Rule, Expr, Value, Symbols, \
          Index, Outcome<'static>, reval::Error, parse::Error, Builder and Send for the futures of Expr::evaluate, \
          RuleSet::evaluate_value and RuleSet::evaluate(&impl Serialize + Sync); this binary does not build otherwise. Dynamic half \
-         (generated): call-heavy rulesets with probes that yield, N in {2, 4, 16} evaluations of one Arc<RuleSet>, each with its own \
+         (generated): call-heavy rulesets with probes that yield, N in {2, 4, 16} evaluations of one Arc<RuleSet> (and large shared rulesets: 96-400 evaluations of deeply nested suspending rules in flight at once; 100 rules with 500 call sites over 4 functions evaluated 25 times each by 8-16 threads), each with its own \
          input id, spawned on a tokio multi-thread runtime (tasks migrate between workers at every yield) or on raw OS threads. \
          Oracle: every outcome vector and every evaluation's attributed invocation multiset equals the sequential baseline. \
          Non-trivial: >= 2 evaluations were in flight at the same time (measured) and every call suspends at least once.",
@@ -337,7 +389,34 @@ fn main() {
     let t0 = std::time::Instant::now();
     let mut acc = Acc::default();
     let mut failed = false;
+    {
+        let mut hacc = Acc::default();
+        let th = std::time::Instant::now();
+        'heavy: for round in 0..tier.pick(4u64, 40u64) {
+            for c in heavy_cases(ctx.seed.wrapping_add(round)) {
+                let before = overlap_seen.load(Ordering::Relaxed);
+                let r = check(&rt, &c, &overlap_seen);
+                let overlapped = overlap_seen.load(Ordering::Relaxed) > before;
+                hacc.case(
+                    if c.n >= 96 { "heavy:hundreds-in-flight" } else { "heavy:hundred-rules-five-hundred-call-sites" },
+                    overlapped,
+                    || format!("round {round}: n={} repeat={} raw_threads={} rules={}", c.n, c.repeat, c.raw_threads, c.spec.rules.len()),
+                );
+                if let Err(issue) = r {
+                    if let Err(issue) = ctx.triage(issue, &|| case_json(&c).to_string()) {
+                        ctx.violation("threads", case_json(&c), &issue);
+                        failed = true;
+                        break 'heavy;
+                    }
+                }
+            }
+        }
+        ctx.finish_phase("large-shared-rulesets", hacc, false, th);
+    }
     for i in 0..n {
+        if failed {
+            break;
+        }
         let mut bytes = vec![];
         let mut x = ctx.seed.wrapping_mul(0x9E3779B97F4A7C15).wrapping_add(i.wrapping_mul(0xD1B54A32D192ED03));
         for _ in 0..40 {
